@@ -822,7 +822,12 @@ add("func", "linalg.solve",
     mat=V(lambda g: (lambda n: C(QA("X", _wellcond(g, n)), QA("Y", g.gen((n, 2)))))(g.r.randint(1, 4)),
           U({"Y": 1, "X": -1})),
     bare_b=V(lambda g: (lambda n: C(QA("X", _wellcond(g, n)), g.gen((n,))))(g.r.randint(1, 4)),
-             U({"X": -1})))
+             U({"X": -1})),
+    # unit-less coefficient matrix, right-hand side with units: the solution carries b's unit
+    bare_a=V(lambda g: (lambda n: C(_wellcond(g, n), QA("Y", g.gen((n,)))))(g.r.randint(1, 4)),
+             U({"Y": 1})),
+    bare_a_mat=V(lambda g: (lambda n: C(_wellcond(g, n), QA("Y", g.gen((n, 2)))))(g.r.randint(1, 4)),
+                 U({"Y": 1})))
 add("func", "interp",
     plain=V(lambda g: (lambda n: C(QA("X", g.pos(g.shape(0, 2), 1.0, 9.0)),
                                    QA("X", np.linspace(0.5, 9.5, n)), QA("Y", g.gen((n,)))))(
